@@ -654,3 +654,1006 @@ theorem collapse_keeps_root_tip (weak : Nat → Bool) (t : T) (h : LenWF t) :
   (collapse_tips weak t 0 h).1
 
 end DendroModel.C05
+
+/-! ## additions after audit H: bridges to the driver-run definitions, clauses at full strength -/
+namespace DendroModel.C05.Aux
+open DendroModel DendroModel.Hier DendroModel.C05
+
+/-! bit-level facts about the star tree and single-bit masks -/
+theorem shift_and (i s : Nat) : (1 <<< i) &&& s = 0 ∨ (1 <<< i) &&& s = 1 <<< i := by
+  by_cases h : i ∈ bits s
+  · right; apply (and_eq_left_iff _ _).mpr; rw [bits_shift]
+    intro j hj; rw [Set.mem_singleton_iff] at hj; subst hj; exact h
+  · left; apply (and_eq_zero_iff _ _).mpr; rw [bits_shift]; simpa using h
+
+theorem cladesL_leaves (l : List Nat) : cladesL (l.map Hier.T.leaf) = l.map (fun i => 1 <<< i) := by
+  induction l with
+  | nil => simp [cladesL]
+  | cons a l ih => simp [cladesL, clades, ih]
+
+theorem maskL_leaves_bits (l : List Nat) (i : Nat) : i ∈ bits (maskL (l.map Hier.T.leaf)) ↔ i ∈ l := by
+  induction l with
+  | nil => simp [maskL]
+  | cons a l ih =>
+    simp only [List.map_cons, maskL, Hier.mask, bits_or, bits_shift, Set.mem_union, Set.mem_singleton_iff, ih, List.mem_cons]
+
+theorem mem_clades_star (members : List Nat) (x : Nat) :
+    x ∈ clades (starOf members) ↔ x = Hier.mask (starOf members) ∨ ∃ i ∈ members, x = 1 <<< i := by
+  unfold starOf
+  split
+  · simp [clades, Hier.mask]
+  · simp only [clades, Hier.mask, cladesL_leaves, List.mem_cons, List.mem_map]
+    constructor
+    · rintro (h | ⟨i, hi, rfl⟩)
+      · exact Or.inl h
+      · exact Or.inr ⟨i, hi, rfl⟩
+    · rintro (h | ⟨i, hi, rfl⟩)
+      · exact Or.inl h
+      · exact Or.inr ⟨i, hi, rfl⟩
+
+theorem mask_star_bits (members : List Nat) (i : Nat) : i ∈ bits (Hier.mask (starOf members)) ↔ i ∈ members := by
+  unfold starOf
+  split
+  · simp [Hier.mask]
+  · simp only [Hier.mask]; exact maskL_leaves_bits _ i
+
+/-- every split inside the star's leafset is compatible with the star -/
+theorem compat_star (members : List Nat) (s : Nat) (hs : s &&& Hier.mask (starOf members) = s) :
+    Compat s (clades (starOf members)) := by
+  intro C hC
+  rcases (mem_clades_star members C).mp hC with rfl | ⟨i, _, rfl⟩
+  · right; right; rw [Nat.and_comm]; exact hs
+  · rcases shift_and i s with h | h
+    · exact Or.inl h
+    · exact Or.inr (Or.inl h)
+
+/-- `(x-1) &&& x = 0` on a non-zero mask: exactly one bit is set -/
+theorem single_bit (x : Nat) (h0 : x ≠ 0) (h : (x - 1) &&& x = 0) : ∃ k, x = 1 <<< k := by
+  have hl : Lsb.lsb x = x := by unfold Lsb.lsb; rw [Nat.and_comm, h]; simp
+  obtain ⟨k, hk, _, _⟩ := C01.lsb_spec x (Nat.pos_of_ne_zero h0)
+  exact ⟨k, by rw [← hl]; exact hk⟩
+
+
+/-- "the frequency reaches the threshold" as `consensus_tree` tests it: `f ≥ m`, or both within 1e-7 of one
+    (the tolerance only matters for thresholds within 1e-7 of 1, see `reaches_iff_ge`) -/
+def reaches (m f : Rat) : Prop :=
+  f ≥ m ∨ (C04.absR (m - 1) ≤ (1 : Rat) / 10000000 ∧ C04.absR (f - 1) ≤ (1 : Rat) / 10000000)
+
+def reachesO : Option Rat → Rat → Prop
+  | none, _ => True
+  | some m, f => reaches m f
+
+theorem reaches_iff_ge (m f : Rat) (hm : ¬ C04.absR (m - 1) ≤ (1 : Rat) / 10000000) : reaches m f ↔ f ≥ m := by
+  unfold reaches; constructor
+  · rintro (h | ⟨h, _⟩)
+    · exact h
+    · exact absurd h hm
+  · intro h; exact Or.inl h
+
+theorem reaches_gt_half (m f : Rat) (hm : 1 / 2 < m) (h : reaches m f) : 1 / 2 < f := by
+  rcases h with h | ⟨_, h⟩
+  · exact lt_of_lt_of_le hm h
+  · unfold C04.absR at h
+    split at h <;> linarith
+
+theorem countOf_isSome (d : List (Int × Rat)) (k : Int) : (countOf d k).isSome ↔ ∃ c, (k, c) ∈ d := by
+  unfold countOf
+  rw [Option.isSome_map, List.find?_isSome]
+  constructor
+  · rintro ⟨p, hp, hk⟩
+    have : p.1 = k := by simpa using hk
+    exact ⟨p.2, by rw [← this]; exact hp⟩
+  · rintro ⟨c, hc⟩; exact ⟨(k, c), hc, by simp⟩
+
+/-- membership in the candidate list: a counted split whose frequency reaches the threshold -/
+theorem mem_candidates (sd : SD) (mf : Option Rat) (s : Int) :
+    s ∈ candidates sd mf ↔ (countOf sd.counts s).isSome ∧ reachesO mf (freq sd s) := by
+  rw [countOf_isSome]
+  unfold candidates
+  simp only [List.mem_map, sortDesc_mem, List.mem_filter]
+  constructor
+  · rintro ⟨p, ⟨q, ⟨hq, hk⟩, rfl⟩, rfl⟩
+    refine ⟨⟨q.2, hq⟩, ?_⟩
+    cases mf with
+    | none => trivial
+    | some m =>
+      simp only [Bool.or_eq_true, decide_eq_true_eq, Bool.and_eq_true] at hk
+      exact hk
+  · rintro ⟨⟨c, hc⟩, hr⟩
+    refine ⟨(freq sd s, s), ⟨(s, c), ⟨hc, ?_⟩, rfl⟩, rfl⟩
+    cases mf with
+    | none => rfl
+    | some m =>
+      simp only [Bool.or_eq_true, decide_eq_true_eq, Bool.and_eq_true]
+      exact hr
+
+theorem counted_iff (useW : Bool) (ts : List TreeRec) (s : Int) :
+    (countOf (countAll useW ts).counts s).isSome ↔ ∃ t ∈ ts, s ∈ t.splits := by
+  rw [count_spec]
+  by_cases h : ∃ t ∈ ts, s ∈ t.splits <;> simp [h]
+
+theorem wsum_zero_of_sum_zero (useW : Bool) (s : Int) : ∀ ts : List TreeRec, (∀ t ∈ ts, 0 ≤ wt useW t) →
+    (ts.map (wt useW)).sum = 0 → wsum useW ts s = 0 := by
+  intro ts
+  induction ts with
+  | nil => intro _ _; simp [wsum]
+  | cons t rest ih =>
+    intro hw hs
+    have h1 := hw t (by simp)
+    have hrest : ∀ t' ∈ rest, 0 ≤ wt useW t' := fun t' h' => hw t' (List.mem_cons_of_mem _ h')
+    have h2 : 0 ≤ (rest.map (wt useW)).sum := List.sum_nonneg (by
+      intro x hx; obtain ⟨t', ht', rfl⟩ := List.mem_map.mp hx; exact hrest t' ht')
+    simp only [List.map_cons, List.sum_cons] at hs
+    have ht0 : wt useW t = 0 := by linarith
+    have hr0 : (rest.map (wt useW)).sum = 0 := by linarith
+    have := ih hrest hr0
+    unfold wsum at this ⊢
+    simp [ht0, this]
+
+/-- a frequency above one half means more than half of the total weight (non-negative weights) -/
+theorem half_of_freq (useW : Bool) (ts : List TreeRec) (s : Int) (hw : ∀ t ∈ ts, 0 ≤ wt useW t)
+    (h : ∃ t ∈ ts, s ∈ t.splits) (hf : 1 / 2 < freq (countAll useW ts) s) :
+    (ts.map (wt useW)).sum < 2 * wsum useW ts s := by
+  rw [freq_spec useW ts s h] at hf
+  by_cases hz : (ts.map (wt useW)).sum = 0
+  · rw [wsum_zero_of_sum_zero useW s ts hw hz] at hf
+    simp at hf
+    linarith
+  · simp only [hz, if_false] at hf
+    have hpos : 0 < (ts.map (wt useW)).sum := by
+      have : 0 ≤ (ts.map (wt useW)).sum := List.sum_nonneg (by
+        intro x hx; obtain ⟨t', ht', rfl⟩ := List.mem_map.mp hx; exact hw t' ht')
+      exact lt_of_le_of_ne this (Ne.symm hz)
+    rw [lt_div_iff₀ hpos] at hf
+    linarith
+
+
+
+/-- what `prep` keeps of a mask inside `all` on the rooted route -/
+theorem prep_rooted_of_sub (all n : Nat) (hn : n &&& all = n) :
+    C01.prep all true n = if n ≠ all ∧ (n - 1) &&& n ≠ 0 then some n else none := by
+  unfold C01.prep
+  simp only [hn]
+  by_cases h1 : n = all
+  · simp [h1]
+  · by_cases h2 : (n - 1) &&& n = 0
+    · simp [h1, h2]
+    · simp [h1, h2]
+
+theorem prep_zero (all : Nat) (r : Bool) : C01.prep all r 0 = none := by
+  unfold C01.prep; simp
+
+end DendroModel.C05.Aux
+
+namespace DendroModel.C05
+open DendroModel DendroModel.Hier DendroModel.C05.Aux
+
+/-- **Majority-rule consensus, all and only.**  Rooted samples: every tree record lists (without repetition) exactly the
+    clades of a well-formed tree over the namespace's leaf set, weights are non-negative, the threshold is above one half.
+    Then the consensus tree the driver builds (`consensus` on `countAll`, i.e. threshold filter, descending sort, greedy
+    insertion into the star) is well formed, spans the star's leaf set, and its clades are exactly the star's clades (root
+    and leaves) together with the splits that occur in some tree and whose frequency reaches the threshold. -/
+theorem majority_consensus_reaches (useW : Bool) (ts : List TreeRec) (m : Rat) (all : Nat) (members : List Nat)
+    (hm : 1 / 2 < m) (hw : ∀ t ∈ ts, 0 ≤ wt useW t) (hg : Good (starOf members)) (hall : Hier.mask (starOf members) = all)
+    (hts : ∀ t ∈ ts, t.splits.Nodup ∧ ∃ h : Hier.T, Good h ∧ Hier.mask h = all ∧
+              ∀ x : Nat, (x : Int) ∈ t.splits ↔ x ∈ clades h) :
+    Good (consensus (countAll useW ts) (some m) all members true)
+    ∧ Hier.mask (consensus (countAll useW ts) (some m) all members true) = all
+    ∧ ∀ x, x ∈ clades (consensus (countAll useW ts) (some m) all members true)
+        ↔ x ∈ clades (starOf members)
+          ∨ (reaches m (freq (countAll useW ts) (x : Int)) ∧ ∃ t ∈ ts, (x : Int) ∈ t.splits) := by
+  -- every candidate that is a natural number is a clade of an input tree, inside `all`, and carried by a majority
+  have hcand : ∀ n : Nat, (n : Int) ∈ candidates (countAll useW ts) (some m) →
+      (∃ t ∈ ts, (n : Int) ∈ t.splits) ∧ reaches m (freq (countAll useW ts) (n : Int)) ∧ n &&& all = n
+        ∧ (ts.map (wt useW)).sum < 2 * wsum useW ts (n : Int) := by
+    intro n hn
+    obtain ⟨hk, hr⟩ := (mem_candidates _ _ _).mp hn
+    have hex := (counted_iff useW ts _).mp hk
+    have hr' : reaches m (freq (countAll useW ts) (n : Int)) := hr
+    obtain ⟨t, ht, hs⟩ := hex
+    obtain ⟨_, h, hgh, hmh, hcl⟩ := hts t ht
+    have hsub : n &&& all = n := by
+      rw [← hmh]; exact (and_eq_left_iff _ _).mpr (clades_sub h n ((hcl n).mp hs))
+    exact ⟨⟨t, ht, hs⟩, hr', hsub, half_of_freq useW ts _ hw ⟨t, ht, hs⟩ (reaches_gt_half m _ hm hr')⟩
+  -- the list handed to the greedy insertion
+  have hss : ∀ s, s ∈ ((candidates (countAll useW ts) (some m)).map Int.toNat).filterMap (C01.prep all true) ↔
+      ((s : Int) ∈ candidates (countAll useW ts) (some m) ∧ s ≠ all ∧ (s - 1) &&& s ≠ 0) := by
+    intro s
+    simp only [List.mem_filterMap, List.mem_map]
+    constructor
+    · rintro ⟨n, ⟨c, hc, rfl⟩, hp⟩
+      by_cases hneg : c < 0
+      · rw [Int.toNat_of_nonpos (le_of_lt hneg), prep_zero] at hp; cases hp
+      · have hc' : ((c.toNat : Nat) : Int) = c := Int.toNat_of_nonneg (not_lt.mp hneg)
+        have hcn : ((c.toNat : Nat) : Int) ∈ candidates (countAll useW ts) (some m) := by rw [hc']; exact hc
+        obtain ⟨_, _, hsub, _⟩ := hcand c.toNat hcn
+        rw [prep_rooted_of_sub all c.toNat hsub] at hp
+        split at hp
+        · rename_i hcond
+          simp only [Option.some.injEq] at hp
+          subst hp; exact ⟨hcn, hcond⟩
+        · cases hp
+    · rintro ⟨hc, h1, h2⟩
+      obtain ⟨_, _, hsub, _⟩ := hcand s hc
+      refine ⟨s, ⟨(s : Int), hc, by simp⟩, ?_⟩
+      rw [prep_rooted_of_sub all s hsub]; simp [h1, h2]
+  have hbuild := C01.build_spec (starOf members)
+    (((candidates (countAll useW ts) (some m)).map Int.toNat).filterMap (C01.prep all true)) hg
+    (by
+      intro s hs
+      obtain ⟨hc, _, h2⟩ := (hss s).mp hs
+      obtain ⟨_, _, hsub, _⟩ := hcand s hc
+      have hsub' : s &&& Hier.mask (starOf members) = s := by rw [hall]; exact hsub
+      refine ⟨?_, hsub', compat_star members s hsub'⟩
+      intro h0; subst h0; simp at h2)
+    (by
+      intro s hs b hb
+      obtain ⟨hcs, _, _⟩ := (hss s).mp hs
+      obtain ⟨hcb, _, _⟩ := (hss b).mp hb
+      obtain ⟨_, _, _, hhs⟩ := hcand s hcs
+      obtain ⟨_, _, _, hhb⟩ := hcand b hcb
+      exact majority_pairwise_laminar useW ts s b (fun t ht => (hts t ht).1) hw
+        (fun t ht => by
+          obtain ⟨_, h, hgh, _, hcl⟩ := hts t ht
+          exact ⟨h, hgh, fun x hx => (hcl x).mp hx⟩) hhs hhb)
+  unfold consensus C01.build
+  refine ⟨hbuild.1, hbuild.2.1.trans hall, ?_⟩
+  intro x
+  rw [hbuild.2.2 x, hss x]
+  constructor
+  · rintro (h | ⟨hc, _, _⟩)
+    · exact Or.inl h
+    · obtain ⟨hex, hr, _, _⟩ := hcand x hc
+      exact Or.inr ⟨hr, hex⟩
+  · rintro (h | ⟨hr, t, ht, hs⟩)
+    · exact Or.inl h
+    · have hc : (x : Int) ∈ candidates (countAll useW ts) (some m) :=
+        (mem_candidates _ _ _).mpr ⟨(counted_iff useW ts _).mpr ⟨t, ht, hs⟩, hr⟩
+      obtain ⟨_, h, hgh, hmh, hcl⟩ := hts t ht
+      have hxc : x ∈ clades h := (hcl x).mp hs
+      have hxsub : bits x ⊆ bits all := by rw [← hmh]; exact clades_sub h x hxc
+      by_cases h1 : x = all
+      · left; rw [h1, ← hall]; exact mask_mem_clades _
+      · by_cases h2 : (x - 1) &&& x = 0
+        · left
+          have hx0 : x ≠ 0 := by
+            by_cases hm0 : Hier.mask h = 0
+            · exfalso; apply h1; rw [← hmh, hm0]
+              apply bits_inj; rw [bits_zero]
+              rw [← hmh, hm0, bits_zero] at hxsub
+              exact Set.subset_empty_iff.mp hxsub
+            · exact clades_ne_zero h hgh hm0 x hxc
+          obtain ⟨k, rfl⟩ := single_bit x hx0 h2
+          have hk : k ∈ bits all := hxsub (by rw [bits_shift]; rfl)
+          rw [← hall, mask_star_bits] at hk
+          exact (mem_clades_star members _).mpr (Or.inr ⟨k, hk, rfl⟩)
+        · exact Or.inr ⟨hc, h1, h2⟩
+
+end DendroModel.C05
+
+namespace DendroModel.C05.Aux
+open DendroModel DendroModel.Hier DendroModel.C05
+
+/-- whatever `prep` keeps is a non-empty mask inside `all` -/
+theorem prep_some (all : Nat) (rooted : Bool) (x s : Nat) (h : C01.prep all rooted x = some s) :
+    s ≠ 0 ∧ s &&& all = s := by
+  unfold C01.prep at h
+  simp only at h
+  split at h
+  · rename_i hcond
+    simp only [Bool.and_eq_true, bne_iff_ne, ne_eq] at hcond
+    have hm : x &&& all ≠ 0 := by intro h0; rw [h0] at hcond; simp at hcond
+    have hsubm : (x &&& all) &&& all = x &&& all := by rw [Nat.and_assoc, Nat.and_self]
+    have hsd : sdiff all (x &&& all) ≠ 0 ∧ sdiff all (x &&& all) &&& all = sdiff all (x &&& all) := by
+      constructor
+      · intro hz
+        apply hcond.1
+        apply Hier.bits_inj
+        have := Hier.bits_sdiff all (x &&& all)
+        rw [hz, Hier.bits_zero] at this
+        ext i
+        constructor
+        · intro hi; rw [Hier.bits_and] at hi; exact hi.2
+        · intro hi
+          by_contra hni
+          have : i ∈ (∅ : Set Nat) := by rw [this]; exact ⟨hi, hni⟩
+          exact this
+      · apply (and_eq_left_iff _ _).mpr; rw [Hier.bits_sdiff]; exact Set.sdiff_subset
+    split at h
+    · simp at h; rw [← h]; exact ⟨hm, hsubm⟩
+    · split at h
+      · simp at h; rw [← h]; exact hsd
+      · simp at h; rw [← h]; exact ⟨hm, hsubm⟩
+  · cases h
+
+/-- one greedy step -/
+theorem addSplit_step (t0 : Hier.T) (hg : Good t0) (s : Nat) (hs0 : s ≠ 0) :
+    Good (C01.addSplit t0 s) ∧ Hier.mask (C01.addSplit t0 s) = Hier.mask t0
+      ∧ (∀ x, x ∈ clades (C01.addSplit t0 s) ↔ (x ∈ clades t0 ∨ (x = s ∧ s &&& Hier.mask t0 = s ∧ Compat s (clades t0)))) := by
+  unfold C01.addSplit
+  by_cases hsub : s &&& Hier.mask t0 = s
+  · have : (s &&& Hier.mask t0 != s) = false := by simp [hsub]
+    simp only [this, Bool.false_eq_true, if_false]
+    obtain ⟨h1, h2, h3⟩ := ins_step s hs0 t0 hg hsub
+    refine ⟨h1, h2, fun x => ?_⟩
+    rw [h3 x]; simp [hsub]
+  · have : (s &&& Hier.mask t0 != s) = true := by simp [hsub]
+    simp only [this, if_true]
+    refine ⟨hg, by simp, fun x => by simp [hsub]⟩
+
+/-- greedy insertion, with the order made explicit: an offered split that did not make it into the tree is blocked by a
+    clade of the final tree that was there from the start or was offered EARLIER in the list -/
+theorem greedy_order (t0 : Hier.T) (hg : Good t0) (a : List Nat) (s : Nat) (b : List Nat)
+    (hne : ∀ x ∈ a ++ s :: b, x ≠ 0) (hsub : s &&& Hier.mask t0 = s) :
+    s ∈ clades ((a ++ s :: b).foldl C01.addSplit t0)
+    ∨ ∃ C ∈ clades ((a ++ s :: b).foldl C01.addSplit t0), (C ∈ clades t0 ∨ C ∈ a)
+        ∧ C &&& s ≠ 0 ∧ C &&& s ≠ C ∧ C &&& s ≠ s := by
+  rw [List.foldl_append, List.foldl_cons]
+  obtain ⟨hga, hma, _, hsupa, _⟩ := greedy_spec t0 hg a (fun x hx => hne x (by simp [hx]))
+  have hs0 : s ≠ 0 := hne s (by simp)
+  obtain ⟨hg1, hm1, hcl1⟩ := addSplit_step (a.foldl C01.addSplit t0) hga s hs0
+  obtain ⟨_, _, hsubF, _, _⟩ := greedy_spec (C01.addSplit (a.foldl C01.addSplit t0) s) hg1 b
+    (fun x hx => hne x (by simp [hx]))
+  by_cases hc : Compat s (clades (a.foldl C01.addSplit t0))
+  · left
+    exact hsubF s ((hcl1 s).mpr (Or.inr ⟨rfl, by rw [hma]; exact hsub, hc⟩))
+  · right
+    obtain ⟨C, hC, h0, h1, h2⟩ := (not_compat_iff s _).mp hc
+    exact ⟨C, hsubF C ((hcl1 C).mpr (Or.inl hC)), hsupa C hC, h0, h1, h2⟩
+
+theorem not_conflict_star (members : List Nat) (s C : Nat) (hs : s &&& Hier.mask (starOf members) = s)
+    (hC : C ∈ clades (starOf members)) : ¬ (C &&& s ≠ 0 ∧ C &&& s ≠ C ∧ C &&& s ≠ s) := by
+  rintro ⟨h0, h1, h2⟩
+  rcases compat_star members s hs C hC with h | h | h
+  · exact h0 h
+  · exact h1 h
+  · exact h2 h
+
+end DendroModel.C05.Aux
+
+namespace DendroModel.C05
+open DendroModel DendroModel.Hier DendroModel.C05.Aux
+
+/-- the auditor's form: for a threshold above one half that is not within 1e-7 of one, "reaches" is `freq ≥ m` -/
+theorem majority_consensus_exact (useW : Bool) (ts : List TreeRec) (m : Rat) (all : Nat) (members : List Nat)
+    (hm : 1 / 2 < m) (hm1 : ¬ C04.absR (m - 1) ≤ (1 : Rat) / 10000000)
+    (hw : ∀ t ∈ ts, 0 ≤ wt useW t) (hg : Good (starOf members)) (hall : Hier.mask (starOf members) = all)
+    (hts : ∀ t ∈ ts, t.splits.Nodup ∧ ∃ h : Hier.T, Good h ∧ Hier.mask h = all ∧
+              ∀ x : Nat, (x : Int) ∈ t.splits ↔ x ∈ clades h) :
+    ∀ x, x ∈ clades (consensus (countAll useW ts) (some m) all members true)
+        ↔ x ∈ clades (starOf members)
+          ∨ (freq (countAll useW ts) (x : Int) ≥ m ∧ ∃ t ∈ ts, (x : Int) ∈ t.splits) := by
+  intro x
+  rw [(majority_consensus_reaches useW ts m all members hm hw hg hall hts).2.2 x, reaches_iff_ge m _ hm1]
+
+/-- strict consensus (threshold exactly 1, which the code tests with a 1e-7 tolerance): with unit weights and fewer than
+    10^7 trees the tolerance admits nothing extra — the consensus holds exactly the splits present in EVERY tree -/
+theorem strict_consensus_exact (ts : List TreeRec) (all : Nat) (members : List Nat)
+    (hn : ts.length < 10000000) (hg : Good (starOf members)) (hall : Hier.mask (starOf members) = all)
+    (hts : ∀ t ∈ ts, t.splits.Nodup ∧ ∃ h : Hier.T, Good h ∧ Hier.mask h = all ∧
+              ∀ x : Nat, (x : Int) ∈ t.splits ↔ x ∈ clades h) :
+    ∀ x, x ∈ clades (consensus (countAll false ts) (some 1) all members true)
+        ↔ x ∈ clades (starOf members) ∨ ((∃ t ∈ ts, (x : Int) ∈ t.splits) ∧ ∀ t ∈ ts, (x : Int) ∈ t.splits) := by
+  intro x
+  have hw : ∀ t ∈ ts, 0 ≤ wt false t := by intro t _; unfold wt; cases t.weight <;> simp
+  rw [(majority_consensus_reaches false ts 1 all members (by norm_num) hw hg hall hts).2.2 x]
+  apply or_congr Iff.rfl
+  constructor
+  · rintro ⟨hr, hex⟩
+    refine ⟨hex, ?_⟩
+    by_contra hnot
+    have hex0 : ∃ t0 ∈ ts, (x : Int) ∉ t0.splits := by
+      by_contra hno; apply hnot; intro t ht; by_contra hx; exact hno ⟨t, ht, hx⟩
+    obtain ⟨t0, ht0, hx0⟩ := hex0
+    rw [freq_unweighted ts _ (fun t ht => (hts t ht).1) hex] at hr
+    have hlt : (ts.filter (fun t => decide ((x : Int) ∈ t.splits))).length < ts.length :=
+      List.length_filter_lt_length_iff_exists.mpr ⟨t0, ht0, by simpa using hx0⟩
+    have hpos : (0 : Rat) < (ts.length : Rat) := by
+      have : 0 < ts.length := by omega
+      exact_mod_cast this
+    have hk : ((ts.filter (fun t => decide ((x : Int) ∈ t.splits))).length : Rat) + 1 ≤ (ts.length : Rat) := by
+      exact_mod_cast hlt
+    have hN : (ts.length : Rat) < 10000000 := by exact_mod_cast hn
+    have hf : ((ts.filter (fun t => decide ((x : Int) ∈ t.splits))).length : Rat) / (ts.length : Rat)
+        ≤ 1 - 1 / (ts.length : Rat) := by
+      rw [div_le_iff₀ hpos]; field_simp; linarith
+    have h1n : (1 : Rat) / 10000000 < 1 / (ts.length : Rat) := by
+      apply one_div_lt_one_div_of_lt hpos hN
+    rcases hr with hr | ⟨_, hr⟩
+    · have : (1 : Rat) / (ts.length : Rat) > 0 := by positivity
+      linarith
+    · unfold C04.absR at hr
+      split at hr <;> linarith
+  · rintro ⟨hex, hall'⟩
+    refine ⟨?_, hex⟩
+    left
+    rw [freq_unweighted ts _ (fun t ht => (hts t ht).1) hex]
+    have : ts.filter (fun t => decide ((x : Int) ∈ t.splits)) = ts :=
+      List.filter_eq_self.mpr (fun t ht => by simpa using hall' t ht)
+    rw [this]
+    obtain ⟨t, ht, _⟩ := hex
+    have : (ts.length : Rat) ≠ 0 := by
+      have : ts.length ≠ 0 := by intro h0; rw [List.length_eq_zero_iff] at h0; subst h0; cases ht
+      exact_mod_cast this
+    rw [div_self this]
+
+/-- **Any threshold, either rooting: nothing below the threshold, pairwise compatible.**  Every clade of the consensus
+    other than the star's own comes from a counted candidate split whose frequency reaches the threshold; and (being the
+    clades of one well-formed tree) the clades are pairwise nested or disjoint. -/
+theorem consensus_only_candidates (sd : SD) (mf : Option Rat) (all : Nat) (members : List Nat) (rooted : Bool)
+    (hg : Good (starOf members)) :
+    (∀ x ∈ clades (consensus sd mf all members rooted), x ∈ clades (starOf members)
+        ∨ ∃ c ∈ candidates sd mf, C01.prep all rooted c.toNat = some x ∧ (countOf sd.counts c).isSome
+            ∧ reachesO mf (freq sd c))
+    ∧ ∀ x ∈ clades (consensus sd mf all members rooted), ∀ y ∈ clades (consensus sd mf all members rooted), Lam x y := by
+  have hsp := consensus_spans sd mf all members rooted hg
+  refine ⟨?_, C01.encoding_is_laminar _ hsp.1⟩
+  intro x hx
+  unfold consensus C01.build at hx
+  have hne : ∀ s ∈ List.filterMap (C01.prep all rooted) (List.map Int.toNat (candidates sd mf)), s ≠ 0 := by
+    intro s hs
+    obtain ⟨n, _, hn⟩ := List.mem_filterMap.mp hs
+    exact (prep_some all rooted n s hn).1
+  rcases (greedy_spec (starOf members) hg _ hne).2.2.2.1 x hx with h | h
+  · exact Or.inl h
+  · right
+    obtain ⟨n, hn, hp⟩ := List.mem_filterMap.mp h
+    obtain ⟨c, hc, rfl⟩ := List.mem_map.mp hn
+    obtain ⟨hk, hr⟩ := (mem_candidates sd mf c).mp hc
+    exact ⟨c, hc, hp, hk, hr⟩
+
+/-- **Any threshold, either rooting: maximal, in decreasing order of frequency.**  Take any candidate `c` (position given
+    by `candidates = pre ++ c :: post`, so everything in `pre` is at least as frequent) that `prep` turns into the
+    insertable split `s` inside the star's leaf set.  Either `s` is a clade of the consensus, or a clade `s'` of the
+    consensus conflicts with it (overlaps, neither contains the other) and `s'` comes from a candidate `c'` listed BEFORE
+    `c`, whose frequency is therefore at least that of `c`. -/
+theorem consensus_greedy_by_frequency (sd : SD) (mf : Option Rat) (all : Nat) (members : List Nat) (rooted : Bool)
+    (hg : Good (starOf members)) (hall : Hier.mask (starOf members) = all)
+    (pre : List Int) (c : Int) (post : List Int) (hcs : candidates sd mf = pre ++ c :: post)
+    (s : Nat) (hp : C01.prep all rooted c.toNat = some s) :
+    s ∈ clades (consensus sd mf all members rooted)
+    ∨ ∃ c' ∈ pre, ∃ s', C01.prep all rooted c'.toNat = some s' ∧ s' ∈ clades (consensus sd mf all members rooted)
+        ∧ freq sd c' ≥ freq sd c ∧ s' &&& s ≠ 0 ∧ s' &&& s ≠ s' ∧ s' &&& s ≠ s := by
+  unfold consensus C01.build
+  have hsplit : List.filterMap (C01.prep all rooted) (List.map Int.toNat (candidates sd mf))
+      = List.filterMap (C01.prep all rooted) (List.map Int.toNat pre) ++ s ::
+          List.filterMap (C01.prep all rooted) (List.map Int.toNat post) := by
+    rw [hcs, List.map_append, List.filterMap_append, List.map_cons, List.filterMap_cons, hp]
+  have hne : ∀ x ∈ List.filterMap (C01.prep all rooted) (List.map Int.toNat (candidates sd mf)), x ≠ 0 := by
+    intro x hx
+    obtain ⟨n, _, hn⟩ := List.mem_filterMap.mp hx
+    exact (prep_some all rooted n x hn).1
+  have hsub : s &&& Hier.mask (starOf members) = s := by rw [hall]; exact (prep_some all rooted _ s hp).2
+  rw [hsplit] at hne ⊢
+  rcases greedy_order (starOf members) hg _ s _ hne hsub with h | ⟨C, hC, hfrom, hconf⟩
+  · exact Or.inl h
+  · right
+    rcases hfrom with hstar | hpre
+    · exact absurd hconf (not_conflict_star members s C hsub hstar)
+    · obtain ⟨n, hn, hpn⟩ := List.mem_filterMap.mp hpre
+      obtain ⟨c', hc', rfl⟩ := List.mem_map.mp hn
+      refine ⟨c', hc', C, hpn, hC, ?_, hconf⟩
+      obtain ⟨l, hl, hsorted, hfreq⟩ := candidates_sorted sd mf
+      rw [hcs] at hl
+      obtain ⟨l1, l2, rfl, h1, h2⟩ := List.map_eq_append_iff.mp hl.symm
+      obtain ⟨p, l3, rfl, hpc, _⟩ := List.map_eq_cons_iff.mp h2
+      rw [← h1] at hc'
+      obtain ⟨q, hq, rfl⟩ := List.mem_map.mp hc'
+      have hge := (List.pairwise_append.mp hsorted).2.2 q hq p (by simp)
+      rw [← hpc, ← hfreq q (by simp [hq]), ← hfreq p (by simp)]
+      exact hge
+
+end DendroModel.C05
+
+namespace DendroModel.C05.Aux
+open DendroModel DendroModel.Hier DendroModel.C05
+
+/-! rooting states seen -/
+theorem rootings_fold : ∀ (ts : List TreeRec) (sd : SD), sd.rootings.Nodup →
+    (ts.foldl countTree sd).rootings.Nodup
+    ∧ ∀ b, b ∈ (ts.foldl countTree sd).rootings ↔ (b ∈ sd.rootings ∨ ∃ t ∈ ts, t.rooted = b) := by
+  intro ts
+  induction ts with
+  | nil => intro sd h; simp [h]
+  | cons t rest ih =>
+    intro sd h
+    have hstep : (countTree sd t).rootings.Nodup ∧ ∀ b, b ∈ (countTree sd t).rootings ↔ (b ∈ sd.rootings ∨ t.rooted = b) := by
+      simp only [countTree]
+      by_cases hc : t.rooted ∈ sd.rootings
+      · simp only [List.contains_iff_mem, hc, if_true]
+        refine ⟨h, fun b => ⟨Or.inl, ?_⟩⟩
+        rintro (hb | rfl)
+        · exact hb
+        · exact hc
+      · simp only [List.contains_iff_mem, hc, if_false]
+        refine ⟨?_, fun b => by simp [eq_comm]⟩
+        rw [List.nodup_append]
+        refine ⟨h, by simp, ?_⟩
+        intro a ha b hb
+        simp at hb; subst hb
+        intro hab; subst hab; exact hc ha
+    obtain ⟨h1, h2⟩ := ih (countTree sd t) hstep.1
+    rw [List.foldl_cons]
+    refine ⟨h1, fun b => ?_⟩
+    rw [h2 b, hstep.2 b]
+    simp only [List.mem_cons, exists_eq_or_imp]
+    tauto
+
+theorem bool_list_eq_true (R : List Bool) (h : R.Nodup) : R = [true] ↔ (true ∈ R ∧ false ∉ R) := by
+  match R, h with
+  | [], _ => simp
+  | [a], _ => cases a <;> simp
+  | a :: b :: rest, h =>
+    have hab : a ≠ b := by
+      intro e; subst e; simp at h
+    cases a <;> cases b <;> simp_all
+
+/-! sorting ascending -/
+theorem insertAsc_perm (x : Rat) (l : List Rat) : (insertAsc x l).Perm (x :: l) := by
+  induction l with
+  | nil => simp [insertAsc]
+  | cons y ys ih =>
+    simp only [insertAsc]
+    split
+    · exact List.Perm.refl _
+    · exact (List.Perm.cons y ih).trans (List.Perm.swap x y ys)
+
+theorem sortAsc_perm (l : List Rat) : (sortAsc l).Perm l := by
+  induction l with
+  | nil => simp [sortAsc]
+  | cons x xs ih =>
+    simp only [sortAsc, List.foldr_cons] at ih ⊢
+    exact (insertAsc_perm x _).trans (List.Perm.cons x ih)
+
+theorem insertAsc_sorted (x : Rat) : ∀ l : List Rat, l.Pairwise (· ≤ ·) → (insertAsc x l).Pairwise (· ≤ ·)
+  | [], _ => by simp [insertAsc]
+  | y :: ys, h => by
+    simp only [insertAsc]
+    have hy := List.pairwise_cons.mp h
+    split
+    · rename_i hxy
+      refine List.pairwise_cons.mpr ⟨?_, h⟩
+      intro z hz
+      rcases List.mem_cons.mp hz with rfl | hz
+      · exact hxy
+      · exact le_trans hxy (hy.1 z hz)
+    · rename_i hxy
+      have hyx : y ≤ x := le_of_lt (not_le.mp hxy)
+      refine List.pairwise_cons.mpr ⟨?_, insertAsc_sorted x ys hy.2⟩
+      intro z hz
+      rcases List.mem_cons.mp ((insertAsc_perm x ys).subset hz) with rfl | hz
+      · exact hyx
+      · exact hy.1 z hz
+
+theorem sortAsc_sorted (l : List Rat) : (sortAsc l).Pairwise (· ≤ ·) := by
+  induction l with
+  | nil => simp [sortAsc]
+  | cons x xs ih =>
+    simp only [sortAsc, List.foldr_cons] at ih ⊢
+    exact insertAsc_sorted x _ ih
+
+theorem sum_sq_dev (mu : Rat) (l : List Rat) :
+    (l.map (fun x => (x - mu) ^ 2)).sum = (l.map (fun v => v * v)).sum - 2 * mu * l.sum + (l.length : Rat) * mu ^ 2 := by
+  induction l with
+  | nil => simp
+  | cons a l ih => simp only [List.map_cons, List.sum_cons, List.length_cons, ih]; push_cast; ring
+
+theorem head_le_of_sorted : ∀ (s : List Rat), s.Pairwise (· ≤ ·) → ∀ x ∈ s, s.headD 0 ≤ x
+  | [], _, x, hx => by cases hx
+  | y :: ys, h, x, hx => by
+    simp only [List.headD_cons]
+    rcases List.mem_cons.mp hx with rfl | hx
+    · exact le_refl _
+    · exact (List.pairwise_cons.mp h).1 x hx
+
+theorem le_last_of_sorted (s : List Rat) (h : s.Pairwise (· ≤ ·)) : ∀ x ∈ s, x ≤ s.getLastD 0 := by
+  intro x hx
+  rcases List.eq_nil_or_concat s with rfl | ⟨init, last, rfl⟩
+  · cases hx
+  · rw [List.concat_eq_append] at h hx ⊢
+    have hl : (init ++ [last]).getLastD 0 = last := by simp
+    rw [hl]
+    rcases List.mem_append.mp hx with hx | hx
+    · exact (List.pairwise_append.mp h).2.2 x hx last (by simp)
+    · simp at hx; rw [hx]
+
+/-! collapse: which internal edges are left -/
+mutual
+/-- `(id, leafset mask)` of the internal nodes among the given nodes and everything below them, in pre-order -/
+def innerL : List T → List (Nat × Nat)
+  | [] => []
+  | c :: cs => inner1 c ++ innerL cs
+def inner1 : T → List (Nat × Nat)
+  | .node _ _ _ _ [] => []
+  | .node i x l s (d :: ds) => (i, T.mask (.node i x l s (d :: ds))) :: innerL (d :: ds)
+end
+
+theorem innerL_append (a b : List T) : innerL (a ++ b) = innerL a ++ innerL b := by
+  induction a with
+  | nil => simp [innerL]
+  | cons c cs ih => simp [innerL, ih]
+
+theorem inner1_withLen (t : T) (l : Option Frac) : inner1 (t.withLen l) = inner1 t := by
+  cases t with
+  | node i x l' s cs => cases cs <;> simp [T.withLen, inner1, T.mask]
+
+theorem mask_withLen (t : T) (l : Option Frac) : T.mask (t.withLen l) = T.mask t := by
+  cases t with
+  | node i x l' s cs => cases cs <;> simp [T.withLen, T.mask]
+
+theorem innerL_map_withLen (f : T → Option Frac) : ∀ gs : List T, innerL (gs.map (fun g => g.withLen (f g))) = innerL gs
+  | [] => by simp [innerL]
+  | g :: gs => by simp only [List.map_cons, innerL, inner1_withLen, innerL_map_withLen f gs]
+
+theorem maskL_map_withLen (f : T → Option Frac) : ∀ gs : List T, T.maskL (gs.map (fun g => g.withLen (f g))) = T.maskL gs
+  | [] => by simp [T.maskL]
+  | g :: gs => by simp only [List.map_cons, T.maskL, mask_withLen, maskL_map_withLen f gs]
+
+theorem inner1_eq (t : T) : inner1 t = if t.cs = [] then [] else (t.id, T.mask t) :: innerL t.cs := by
+  cases t with
+  | node i x l s cs => cases cs <;> simp [inner1, T.cs, T.id]
+
+theorem mask_eq_of_cs (t : T) (h : t.cs ≠ []) : T.mask t = T.maskL t.cs := by
+  cases t with
+  | node i x l s cs =>
+    cases cs with
+    | nil => simp [T.cs] at h
+    | cons d ds => simp [T.mask, T.cs]
+
+theorem tmaskL_append (a b : List T) : T.maskL (a ++ b) = T.maskL a ||| T.maskL b := by
+  induction a with
+  | nil => simp [T.maskL]
+  | cons c cs ih => simp [T.maskL, ih, Nat.lor_assoc]
+
+mutual
+theorem collapse_inner (weak : Nat → Bool) : ∀ (t : T),
+    (collapseWeak weak t).id = t.id ∧ T.mask (collapseWeak weak t) = T.mask t
+      ∧ ((collapseWeak weak t).cs = [] ↔ t.cs = [])
+      ∧ innerL (collapseWeak weak t).cs = (innerL t.cs).filter (fun p => !weak p.1)
+  | .node i x l s [] => by simp [collapseWeak, collapseWeakL, T.id, T.cs, innerL]
+  | .node i x l s (c :: cs) => by
+    obtain ⟨h1, h2, h3⟩ := collapseL_inner weak (c :: cs)
+    refine ⟨by simp [collapseWeak, T.id], ?_, ?_, by simpa [collapseWeak, T.cs] using h2⟩
+    · have hne : collapseWeakL weak (c :: cs) ≠ [] := h3 (by simp)
+      have e1 := mask_eq_of_cs (collapseWeak weak (.node i x l s (c :: cs))) (by simpa [collapseWeak, T.cs] using hne)
+      rw [e1]; simp only [collapseWeak, T.cs]; rw [h1]; simp [T.mask]
+    · simp only [collapseWeak, T.cs]
+      constructor
+      · intro hh; exact absurd hh (h3 (by simp))
+      · intro hh; cases hh
+theorem collapseL_inner (weak : Nat → Bool) : ∀ (cs : List T),
+    T.maskL (collapseWeakL weak cs) = T.maskL cs
+      ∧ innerL (collapseWeakL weak cs) = (innerL cs).filter (fun p => !weak p.1)
+      ∧ (cs ≠ [] → collapseWeakL weak cs ≠ [])
+  | [] => by simp [collapseWeakL, innerL]
+  | c :: cs => by
+    obtain ⟨ih1, ih2, _⟩ := collapseL_inner weak cs
+    obtain ⟨hid, hmask, hemp, hinn⟩ := collapse_inner weak c
+    simp only [collapseWeakL]
+    split
+    · rename_i hw
+      simp only [Bool.and_eq_true, Bool.not_eq_true', List.isEmpty_eq_false_iff] at hw
+      have hcne : c.cs ≠ [] := fun h => hw.2 (hemp.mpr h)
+      refine ⟨?_, ?_, ?_⟩
+      · have hc'ne : (collapseWeak weak c).cs ≠ [] := hw.2
+        rw [tmaskL_append, maskL_map_withLen, ih1, ← mask_eq_of_cs _ hc'ne, hmask]
+        simp [T.maskL]
+      · rw [innerL_append, innerL_map_withLen, hinn, ih2]
+        simp only [innerL]
+        rw [inner1_eq c]
+        simp only [hcne, if_false, List.filter_append, List.filter_cons]
+        rw [hid] at hw
+        simp [hw.1]
+      · intro _ hnil
+        have := List.append_eq_nil_iff.mp hnil
+        exact hw.2 (List.map_eq_nil_iff.mp this.1)
+    · rename_i hw
+      refine ⟨?_, ?_, by simp⟩
+      · simp only [List.cons_append, List.nil_append, T.maskL, hmask, ih1]
+      · simp only [List.cons_append, List.nil_append, innerL, ih2, List.filter_append]
+        congr 1
+        rw [inner1_eq, inner1_eq c, hid, hmask, hinn]
+        by_cases hc : c.cs = []
+        · simp [hc, hemp.mpr hc]
+        · have hc' : (collapseWeak weak c).cs ≠ [] := fun h => hc (hemp.mp h)
+          have hnw : weak c.id = false := by
+            rw [hid] at hw
+            simp only [Bool.and_eq_true, Bool.not_eq_true', List.isEmpty_eq_false_iff, not_and] at hw
+            by_contra hh
+            exact hw (by simpa using hh) hc'
+          simp [hc, hc', hnw]
+end
+
+end DendroModel.C05.Aux
+
+namespace DendroModel.C05.Aux
+open DendroModel DendroModel.Hier DendroModel.C05
+
+mutual
+theorem edgesPost_fst : ∀ (b : Bool) (t : T), (C04.edgesPost b t).map (·.1) = T.masksPost t
+  | b, .node i x l s cs => by simp [C04.edgesPost, T.masksPost, edgesPostL_fst cs]
+theorem edgesPostL_fst : ∀ cs : List T, (C04.edgesPostL cs).map (·.1) = T.masksPostL cs
+  | [] => by simp [C04.edgesPostL, T.masksPostL]
+  | c :: cs => by simp [C04.edgesPostL, T.masksPostL, edgesPost_fst false c, edgesPostL_fst cs]
+end
+
+mutual
+theorem inner_mem_nodes : ∀ (t : T) (p : Nat × Nat), p ∈ inner1 t → ∃ nd ∈ T.nodes t, nd.cs ≠ [] ∧ p = (nd.id, T.mask nd)
+  | .node i x l s [], p, h => by simp [inner1] at h
+  | .node i x l s (d :: ds), p, h => by
+    simp only [inner1, List.mem_cons] at h
+    rcases h with rfl | h
+    · exact ⟨.node i x l s (d :: ds), by simp [T.nodes], by simp [T.cs], rfl⟩
+    · obtain ⟨nd, hnd, hp⟩ := innerL_mem_nodes (d :: ds) p h
+      exact ⟨nd, by simp only [T.nodes, List.mem_cons]; exact Or.inr hnd, hp⟩
+theorem innerL_mem_nodes : ∀ (cs : List T) (p : Nat × Nat), p ∈ innerL cs → ∃ nd ∈ T.nodesL cs, nd.cs ≠ [] ∧ p = (nd.id, T.mask nd)
+  | [], p, h => by simp [innerL] at h
+  | c :: cs, p, h => by
+    simp only [innerL, List.mem_append] at h
+    rcases h with h | h
+    · obtain ⟨nd, hnd, hp⟩ := inner_mem_nodes c p h
+      exact ⟨nd, by simp only [T.nodesL, List.mem_append]; exact Or.inl hnd, hp⟩
+    · obtain ⟨nd, hnd, hp⟩ := innerL_mem_nodes cs p h
+      exact ⟨nd, by simp only [T.nodesL, List.mem_append]; exact Or.inr hnd, hp⟩
+end
+
+end DendroModel.C05.Aux
+
+namespace DendroModel.C05
+open DendroModel DendroModel.Hier DendroModel.C05.Aux
+
+/-- **Rooting state of the consensus.**  The flag handed to `from_split_bitmasks` (and printed by the driver) is "rooted"
+    exactly when at least one tree was counted and every counted tree is rooted. -/
+theorem consensus_rooting_spec (useW : Bool) (ts : List TreeRec) :
+    consensusRooted (countAll useW ts) = true ↔ (ts ≠ [] ∧ ∀ t ∈ ts, t.rooted = true) := by
+  obtain ⟨hnd, hmem⟩ := rootings_fold ts { useWeights := useW } (by simp)
+  unfold consensusRooted countAll
+  rw [beq_iff_eq, bool_list_eq_true _ hnd, hmem true, hmem false]
+  simp only [List.not_mem_nil, false_or, not_exists, not_and]
+  constructor
+  · rintro ⟨⟨t, ht, _⟩, hall⟩
+    refine ⟨(by intro h; subst h; cases ht), fun t' ht' => ?_⟩
+    cases hr : t'.rooted
+    · exact absurd hr (hall t' ht')
+    · rfl
+  · rintro ⟨hne, hall⟩
+    refine ⟨?_, fun t ht hf => by rw [hall t ht] at hf; cases hf⟩
+    cases ts with
+    | nil => exact absurd rfl hne
+    | cons t rest => exact ⟨t, by simp, hall t (by simp)⟩
+
+/-- **Bridge: the record the driver builds from a rooted input tree.**  Its splits are the leafset masks of the tree after
+    unifurcation suppression, in post-order; so for a well-formed tree they are exactly the clades of a well-formed
+    hierarchy with the tree's leaf set — the `hts` hypothesis of the consensus theorems (all but `Nodup`, which holds
+    when no two nodes of the suppressed tree have the same leaf set and is NOT derived here). -/
+theorem treeRecOf_rooted_clades (w : Option Rat) (t : T) :
+    (treeRecOf (some true) w t).rooted = true
+    ∧ (treeRecOf (some true) w t).weight = w
+    ∧ (treeRecOf (some true) w t).leafset = T.mask t.sup
+    ∧ (treeRecOf (some true) w t).splits = (T.masksPost t.sup).map (fun (m : Nat) => (m : Int))
+    ∧ (Good (T.toH t) → Good (Hier.sup (T.toH t)) ∧ Hier.mask (Hier.sup (T.toH t)) = T.mask t
+        ∧ ∀ x : Nat, (x : Int) ∈ (treeRecOf (some true) w t).splits ↔ x ∈ clades (Hier.sup (T.toH t))) := by
+  have he : C01.encodeTree (some true) true true t = t.sup := by simp [C01.encodeTree]
+  have hs : (treeRecOf (some true) w t).splits = (T.masksPost t.sup).map (fun (m : Nat) => (m : Int)) := by
+    show ((C04.edgeRecs (some true) t).map (·.split)) = _
+    unfold C04.edgeRecs
+    simp only [he, List.map_map]
+    rw [← edgesPost_fst true t.sup, List.map_map]
+    apply List.map_congr_left
+    intro e _
+    simp [C01.splitOf]
+  refine ⟨rfl, rfl, (by show T.mask (C01.encodeTree (some true) true true t) = _; rw [he]), hs, ?_⟩
+  intro hg
+  refine ⟨Hier.sup_good _ hg, by rw [Hier.sup_mask, C01.Aux.toH_mask], ?_⟩
+  intro x
+  rw [hs, ← C01.Aux.sup_toH, C01.Aux.toH_clades]
+  simp
+
+/-- **Collapse removes exactly the weak internal edges.**  When `collapseBelow` answers (no leaf edge is flagged), the
+    internal non-root nodes of the result are — same ids, same leaf sets, same order — those internal non-root nodes of the
+    encoded target that are not flagged; every root-to-tip distance is kept (given well-formed lengths); and with distinct
+    node ids "flagged" means precisely that the node's split frequency is below the threshold. -/
+theorem collapse_removes_exactly (sd : SD) (mf : Rat) (r : Option Bool) (t t' : T)
+    (h : collapseBelow sd mf r t = some t') :
+    let t2 := C01.encodeTree r true true t
+    T.mask t' = T.mask t2
+    ∧ innerL t'.cs = (innerL t2.cs).filter (fun p => !(weakIdsOf sd mf r t2).contains p.1)
+    ∧ (LenWF t2 → tips 0 t' = tips 0 t2)
+    ∧ ((t2.nodes.map T.id).Nodup → ∀ p, p ∈ innerL t'.cs ↔
+          (p ∈ innerL t2.cs ∧ freq sd (C01.splitOf (r == some true) (T.mask t2) p.2) ≥ mf)) := by
+  intro t2
+  unfold collapseBelow at h
+  simp only at h
+  split at h
+  · cases h
+  · simp only [Option.some.injEq] at h
+    subst h
+    obtain ⟨_, hmask, _, hinn⟩ := collapse_inner (fun i => (weakIdsOf sd mf r t2).contains i) t2
+    refine ⟨hmask, hinn, fun hwf => collapse_keeps_root_tip _ t2 hwf, ?_⟩
+    intro hnd p
+    show p ∈ innerL (collapseWeak (fun i => (weakIdsOf sd mf r t2).contains i) t2).cs ↔ _
+    rw [hinn, List.mem_filter]
+    apply and_congr_right
+    intro hp
+    obtain ⟨nd, hndm, _, rfl⟩ := innerL_mem_nodes t2.cs p hp
+    have hndm' : nd ∈ T.nodes t2 := by
+      cases ht2 : t2 with
+      | node i x l s cs => rw [ht2] at hndm; simp only [T.cs] at hndm; simp only [T.nodes, List.mem_cons]; exact Or.inr hndm
+    simp only [Bool.not_eq_true', ge_iff_le]
+    rw [← not_lt, ← Bool.not_eq_true, List.contains_iff_mem]
+    apply not_congr
+    unfold weakIdsOf
+    simp only [List.mem_map, List.mem_filter, decide_eq_true_eq]
+    constructor
+    · rintro ⟨nd', ⟨hnd', hlt⟩, hid⟩
+      have : nd' = nd := List.inj_on_of_nodup_map hnd hnd' hndm' hid
+      rw [this] at hlt; exact hlt
+    · intro hlt; exact ⟨nd, ⟨hndm', hlt⟩, rfl⟩
+
+/-- **Summaries of one split's values.**  For a non-empty value list: `mean · n = Σ`; minimum, maximum and median are read
+    off an ascending permutation of the values (so `lo ≤ x ≤ hi` for every value and both are values); and for `n ≥ 2` the
+    reported variance is the sample variance `Σ (x − mean)² / (n − 1)`. -/
+theorem stats_spec (l : List Rat) (hl : l ≠ []) :
+    (stats l).n = l.length
+    ∧ (stats l).mean * (l.length : Rat) = l.sum
+    ∧ (∃ s : List Rat, s.Perm l ∧ s.Pairwise (· ≤ ·) ∧ (stats l).lo = s.headD 0 ∧ (stats l).hi = s.getLastD 0
+        ∧ (stats l).median = if s.length % 2 = 1 then s.getD ((s.length - 1) / 2) 0
+                              else (s.getD (s.length / 2 - 1) 0 + s.getD (s.length / 2) 0) / 2)
+    ∧ (∀ x ∈ l, (stats l).lo ≤ x ∧ x ≤ (stats l).hi)
+    ∧ (2 ≤ l.length → ∃ v, (stats l).var = some v
+          ∧ v * ((l.length : Rat) - 1) = (l.map (fun x => (x - (stats l).mean) ^ 2)).sum) := by
+  have hn : (l.length : Rat) ≠ 0 := by
+    have : l.length ≠ 0 := by intro h; exact hl (List.length_eq_zero_iff.mp h)
+    exact_mod_cast this
+  refine ⟨rfl, ?_, ⟨sortAsc l, sortAsc_perm l, sortAsc_sorted l, rfl, rfl, ?_⟩, ?_, ?_⟩
+  · simp only [stats, mean]; field_simp
+  · simp only [stats, median, beq_iff_eq]
+  · intro x hx
+    have hx' : x ∈ sortAsc l := (sortAsc_perm l).symm.subset hx
+    exact ⟨head_le_of_sorted _ (sortAsc_sorted l) x hx', le_last_of_sorted _ (sortAsc_sorted l) x hx'⟩
+  · intro h2
+    refine ⟨sampleVar l, by simp [stats, h2], ?_⟩
+    have hn1 : (l.length : Rat) - 1 ≠ 0 := by
+      have : (2 : Rat) ≤ (l.length : Rat) := by exact_mod_cast h2
+      linarith
+    rw [sum_sq_dev]
+    simp only [stats, mean, sampleVar]
+    field_simp
+    ring
+
+end DendroModel.C05
+
+namespace DendroModel.C05.Aux
+open DendroModel DendroModel.Hier DendroModel.C05
+/-! non-vacuity: concrete data meeting the hypotheses of the theorems above -/
+/-- the record of the rooted tree (0,(1,2)) -/
+def exRec : TreeRec := { rooted := true, weight := none, splits := [1, 2, 4, 6, 7], lens := [], leafset := 7 }
+def exH : Hier.T := .node [.leaf 0, .node [.leaf 1, .leaf 2]]
+def exT : T := .node 0 none none none [.node 1 (some 0) none none [], .node 2 none none none
+    [.node 3 (some 1) none none [], .node 4 (some 2) none none []]]
+theorem exRec_hts : exRec.splits.Nodup ∧ ∃ h : Hier.T, Good h ∧ Hier.mask h = 7 ∧
+    ∀ x : Nat, (x : Int) ∈ exRec.splits ↔ x ∈ clades h := by
+  refine ⟨by decide, exH, by simp [exH, Good, GoodL, Hier.mask, Hier.maskL], by simp [exH, Hier.mask, Hier.maskL], ?_⟩
+  intro x
+  simp [exRec, exH, clades, cladesL, Hier.maskL, Hier.mask]
+  omega
+theorem exStar : Good (starOf [0, 1, 2]) ∧ Hier.mask (starOf [0, 1, 2]) = 7 := by
+  simp [starOf, Good, GoodL, Hier.mask, Hier.maskL]
+end DendroModel.C05.Aux
+
+namespace DendroModel.C05
+open DendroModel DendroModel.Hier DendroModel.C05.Aux
+/-- hypotheses of `majority_consensus_reaches` / `majority_consensus_exact` (threshold 3/4) / `strict_consensus_exact` -/
+example : (1 : Rat) / 2 < 3 / 4 ∧ ¬ C04.absR ((3 : Rat) / 4 - 1) ≤ (1 : Rat) / 10000000
+    ∧ (∀ t ∈ [exRec, exRec], 0 ≤ wt true t) ∧ [exRec, exRec].length < 10000000
+    ∧ Good (starOf [0, 1, 2]) ∧ Hier.mask (starOf [0, 1, 2]) = 7
+    ∧ ∀ t ∈ [exRec, exRec], t.splits.Nodup ∧ ∃ h : Hier.T, Good h ∧ Hier.mask h = 7 ∧
+        ∀ x : Nat, (x : Int) ∈ t.splits ↔ x ∈ clades h := by
+  refine ⟨by norm_num, by norm_num [C04.absR], ?_, by simp, exStar.1, exStar.2, ?_⟩
+  · intro t ht; simp at ht; subst ht; simp [wt, exRec]
+  · intro t ht; simp at ht; subst ht; exact exRec_hts
+/-- … and the theorem applied: the clade {1,2} (mask 6) is in the strict consensus of two copies of (0,(1,2)) -/
+example : 6 ∈ clades (consensus (countAll false [exRec, exRec]) (some 1) 7 [0, 1, 2] true) := by
+  refine (strict_consensus_exact [exRec, exRec] 7 [0, 1, 2] (by simp) exStar.1 exStar.2 ?_ 6).mpr (Or.inr ?_)
+  · intro t ht; simp at ht; subst ht; exact exRec_hts
+  · simp [exRec]
+/-- hypotheses of `consensus_only_candidates` / `consensus_greedy_by_frequency` -/
+example : Good (starOf [0, 1, 2]) ∧ Hier.mask (starOf [0, 1, 2]) = 7
+    ∧ candidates { useWeights := false, total := 1, sumW := 1, counts := [(6, 1)] } none = [] ++ 6 :: []
+    ∧ C01.prep 7 true (6 : Int).toNat = some 6 := by
+  refine ⟨exStar.1, exStar.2, by simp [candidates, sortDesc, insertDesc], by decide⟩
+/-- `consensus_rooting_spec` applied -/
+example : consensusRooted (countAll false [exRec]) = true :=
+  (consensus_rooting_spec false [exRec]).mpr ⟨by simp, by simp [exRec]⟩
+/-- hypothesis of `treeRecOf_rooted_clades` -/
+example : Good (T.toH exT) := by simp [exT, T.toH, T.toHL, Good, GoodL, Hier.mask, Hier.maskL]
+/-- hypothesis of `collapse_removes_exactly`: with threshold 0 nothing is weak and the call answers -/
+example : ∃ t', collapseBelow { useWeights := false } 0 (some true) exT = some t' := by
+  simp [collapseBelow, weakIdsOf, freq, countOf, exT, C01.encodeTree, T.sup, T.supL, T.nodes, T.nodesL, anyWeakLeaf, anyWeakLeafL]
+/-- hypotheses of `stats_spec` -/
+example : ([1, 2, 4] : List Rat) ≠ [] ∧ 2 ≤ ([1, 2, 4] : List Rat).length := by simp
+end DendroModel.C05
+
+namespace DendroModel.C05.Aux
+open DendroModel DendroModel.Hier DendroModel.C05
+
+mutual
+theorem clades_nodup : ∀ t : Hier.T, Good t → NoUnif t → (clades t).Nodup
+  | .leaf i, _, _ => by simp [clades]
+  | .node cs, hg, hn => by
+    simp only [Good] at hg
+    simp only [NoUnif] at hn
+    simp only [clades, List.nodup_cons]
+    refine ⟨?_, cladesL_nodup cs hg hn.2⟩
+    intro hmem
+    obtain ⟨c, hc, hx⟩ := (mem_cladesL _ _).mp hmem
+    have h1 : bits (maskL cs) ⊆ bits (Hier.mask c) := clades_sub c _ hx
+    have h2 : bits (Hier.mask c) ⊆ bits (maskL cs) := bits_maskL_subset_of_mem hc
+    exact mask_proper hg hn.1 hc (bits_inj (Set.Subset.antisymm h2 h1))
+theorem cladesL_nodup : ∀ cs : List Hier.T, GoodL cs → NoUnifL cs → (cladesL cs).Nodup
+  | [], _, _ => by simp [cladesL]
+  | c :: cs, hg, hn => by
+    simp only [GoodL] at hg
+    simp only [NoUnifL] at hn
+    simp only [cladesL]
+    rw [List.nodup_append]
+    refine ⟨clades_nodup c hg.1 hn.1, cladesL_nodup cs hg.2.2.2 hn.2, ?_⟩
+    intro x hx y hy hxy
+    subst hxy
+    have hd := (and_eq_zero_iff _ _).mp hg.2.2.1
+    have hx0 : x ≠ 0 := cladesL_ne_zero cs hg.2.2.2 x hy
+    obtain ⟨i, hi⟩ := ne_zero_bits hx0
+    exact (Set.disjoint_left.mp hd) (clades_sub c x hx hi) (cladesL_sub cs x hy hi)
+end
+
+mutual
+theorem masksPost_perm : ∀ t : T, (T.masksPost t).Perm (clades (T.toH t))
+  | .node i x l s [] => by
+    cases x <;> simp [T.masksPost, T.masksPostL, T.toH, clades, cladesL, T.mask, Hier.maskL]
+  | .node i x l s (c :: cs) => by
+    simp only [T.masksPost, T.toH, clades]
+    have ih := masksPostL_perm (c :: cs)
+    have hm : T.mask (.node i x l s (c :: cs)) = Hier.maskL (T.toHL (c :: cs)) := by
+      rw [C01.Aux.toHL_mask]; simp [T.mask]
+    rw [hm]
+    exact (List.perm_append_comm).trans (List.Perm.cons _ ih)
+theorem masksPostL_perm : ∀ cs : List T, (T.masksPostL cs).Perm (cladesL (T.toHL cs))
+  | [] => by simp [T.masksPostL, T.toHL, cladesL]
+  | c :: cs => by
+    simp only [T.masksPostL, T.toHL, cladesL]
+    exact List.Perm.append (masksPost_perm c) (masksPostL_perm cs)
+end
+
+end DendroModel.C05.Aux
+
+namespace DendroModel.C05
+open DendroModel DendroModel.Hier DendroModel.C05.Aux
+
+/-- **Bridge, continued: no repeated split.**  The record the driver builds from a well-formed rooted tree with a non-empty
+    leaf set lists every split once (unifurcations are suppressed by the encoding, so no two nodes share a leaf set).
+    Together with `treeRecOf_rooted_clades` this discharges the whole `hts` hypothesis of the consensus theorems. -/
+theorem treeRecOf_rooted_nodup (w : Option Rat) (t : T) (hg : Good (T.toH t)) (h0 : T.mask t ≠ 0) :
+    (treeRecOf (some true) w t).splits.Nodup := by
+  rw [(treeRecOf_rooted_clades w t).2.2.2.1]
+  apply List.Nodup.map Nat.cast_injective
+  apply (masksPost_perm t.sup).nodup_iff.mpr
+  rw [C01.Aux.sup_toH]
+  have h0' : Hier.mask (T.toH t) ≠ 0 := by rw [C01.Aux.toH_mask]; exact h0
+  exact clades_nodup _ (Hier.sup_good _ hg) (Hier.sup_noUnif _ hg h0')
+
+/-- the driver's records of well-formed rooted trees over the namespace's leaf set meet the hypothesis of
+    `majority_consensus_reaches` / `_exact` / `strict_consensus_exact` -/
+theorem treeRecOf_rooted_hts (all : Nat) (ws : List (Option Rat × T))
+    (h : ∀ p ∈ ws, Good (T.toH p.2) ∧ T.mask p.2 = all) (hall : all ≠ 0) :
+    ∀ r ∈ ws.map (fun p => treeRecOf (some true) p.1 p.2), r.splits.Nodup ∧ ∃ h : Hier.T, Good h ∧ Hier.mask h = all ∧
+        ∀ x : Nat, (x : Int) ∈ r.splits ↔ x ∈ clades h := by
+  intro r hr
+  obtain ⟨p, hp, rfl⟩ := List.mem_map.mp hr
+  obtain ⟨hg, hm⟩ := h p hp
+  obtain ⟨hg', hm', hcl⟩ := (treeRecOf_rooted_clades p.1 p.2).2.2.2.2 hg
+  exact ⟨treeRecOf_rooted_nodup p.1 p.2 hg (by rw [hm]; exact hall), _, hg', hm'.trans hm, hcl⟩
+
+example : Good (T.toH exT) ∧ T.mask exT ≠ 0 := by
+  simp [exT, T.toH, T.toHL, Good, GoodL, Hier.mask, Hier.maskL, T.mask, T.maskL]
+
+end DendroModel.C05
